@@ -38,18 +38,19 @@ ASSUMPTIONS = [
 ]
 TRUSTED = []
 MANIFEST = dict(
-    text="Machine-checked theorems (Coq 8.16.1) about an executable Gallina model of full_ln (Map.stack over HitList/HoldList "
-         "instances, sort by offset, group by column, diff-to-next, the two thresholds, from_dict rebuild) over integer-scaled "
-         "times: for every chart, every gap >= 0 and threshold >= 0 and EVERY sorted order of tied notes the result satisfies an "
-         "independently written per-column specification (non-last notes filled by the stated rule, last note kept, other "
-         "lists unchanged), note count and (column,time) multiset are preserved, no hold passes a later note of its column, the "
-         "last note is kept, the operation is total; the boolean oracle is proved to decide the specification and the per-run correspondence relation is proved to transfer the theorem. One defect class of the pinned tree is "
-         "stated as *_refuted theorems with a witness (StepMania: mines/fakes/lifts/keysounds/rolls are stacked in and come back "
-         "duplicated) and the property is proved under the guard excluding it. The model is tied to the code on every run by in-Coq correspondence on "
-         "charts of all five games, and the oracle is evaluated on the implementation's outputs.",
+    text="Machine-checked theorems (Coq 8.16.1) about an executable Gallina model of full_ln (m.Stacker([m.hits, m.holds]), sort by "
+         "offset, group by column, diff-to-next, the two thresholds, from_dict rebuild) over integer-scaled times: for every chart "
+         "of any game (whatever other lists it has), every gap >= 0 and threshold >= 0 and EVERY sorted order of tied notes the "
+         "result satisfies an independently written per-column specification (non-last notes filled by the stated rule, last note "
+         "kept, other lists unchanged), note count and (column,time) multiset are preserved, no hold passes a later note of its "
+         "column, the last note is kept, the operation is total; the boolean oracle is proved to decide the specification and the "
+         "per-run correspondence relation is proved to transfer the theorem. The old stacking by type (before fix 2c338d8: StepMania "
+         "mines/fakes/lifts/keysounds/rolls came back duplicated) is kept as a named old variant with a refuted count theorem. The "
+         "model is tied to the code on every run by in-Coq correspondence on charts of all five games, and the oracle is evaluated "
+         "on the implementation's outputs.",
     note="Trusted: Coq kernel+VM, harness generator/serialiser (scaling to integers, interning of other lists' rows); binary64 "
          "exactness on dyadic inputs is checked per case, not proved; row order/labels and game-specific fields of rebuilt lists "
-         "are outside the property. Known finding: sm-extra-note-lists.",
+         "are outside the property. No open finding (sm-extra-note-lists fixed by 2c338d8; corpus case kept).",
     technique="Coq proof over executable model + vm_compute correspondence against the implementation",
     design="4/C17")
 
@@ -62,7 +63,6 @@ GAMES = {
     "base": ("reamber.base.Map", "Map"),
 }
 SM_EXTRA_HITS = ["fakes", "lifts", "keysounds", "mines"]
-KNOWN_SM = "sm-extra-note-lists"
 
 
 # ------------------------------------------------------------------ generator
@@ -502,14 +502,11 @@ def _in_domain(case, out):
     return True
 
 
-def _check(case, out, defect_mode=False):
+def _check(case, out):
     if out["v"] is None or not out["unchanged"]:
         return False
     gap, thr = Fr(*case["gap"]), Fr(*case["thr"])
-    if defect_mode:
-        I = _notes_of(out["in"], lambda l: l["cls"] != "none")
-    else:
-        I = _notes_of(out["in"], lambda l: l["slot"] != "other")
+    I = _notes_of(out["in"], lambda l: l["slot"] != "other")
     oh = _notes_of(out["v"], lambda l: l["slot"] == "hits")
     oo = _notes_of(out["v"], lambda l: l["slot"] == "holds")
     if any(l is not None for _, _, l in oh) or any(l is None for _, _, l in oo):
@@ -533,14 +530,7 @@ def _extras_nonempty(out):
 
 
 def classify(case, out, kind):
-    if kind != "spec" or not _in_domain(case, out):
-        return None
-    if out["v"] is None:
-        return None
-    if _extras_nonempty(out) and _check(case, out, defect_mode=True):
-        # everything is as the rule says once the extra HitList/HoldList instances are counted as input of the
-        # rebuilt hits/holds: exactly the duplication defect and nothing else
-        return KNOWN_SM
+    # no known finding is open for C17 (sm-extra-note-lists is fixed by 2c338d8): every violation raises
     return None
 
 
